@@ -25,6 +25,10 @@ FIXED = [
  ("C17", "fix: round is exact for large whole numbers", "{{ 9007199254740991 | round }} gave 9007199254740992 (operands and result exactly representable)"),
  ("C16", "fix: capitalize upper-cases the first character", "{{ 'ébc' | capitalize }} produced invalid UTF-8 (first byte upper-cased)"),
  ("C15", "fix: the size filter counts the elements of a range", "{{ (1..3) | size }} printed 0 although array filters accept ranges"),
+ ("C13", "fix: a left-trim hyphen only strips the text written immediately before it", "in 'a {{ x -}}\\n{{- y }}' (x empty) the space after 'a' was stripped although it is not adjacent to the second tag (strong trim law)"),
+ ("C06", "fix: an unclosed comment or raw block is a parse error", "{% comment %}... / {% raw %}... never closed were accepted"),
+ ("C07", "fix: an error that already carries a line number keeps it", "without a parse path, a render error nested in blocks was reported at the line of the outermost enclosing block"),
+ ("C07", "fix: errors in elsif and when clauses are located at the clause", "syntax/evaluation errors in {% elsif %} / {% when %} were reported at the line of the {% if %} / {% case %} tag"),
  ("C01", "fix: property access on a map whose keys are not strings", "{{ m.foo }} / {{ m.size }} on a map[int]string panicked in reflect.Value.MapIndex"),
 ]
 KNOWN = [
